@@ -18,7 +18,7 @@ PROP = dict(
     engines=[dict(
         name="rawvec", classify=classify,
         quick=dict(cases=4000, shards=4, profiles=["debug"], extra=["--no-faults"]),
-        thorough=dict(cases=160000, shards=16, profiles=["debug"], extra=["--no-faults"]),
+        thorough=dict(cases=48000, shards=16, profiles=["debug"], extra=["--no-faults"]),
     )],
     model_targets=["Extract/Extract.vo"],
     rule="state-aware random histories (12-61 steps) on real BytesVec / ZeroCopyVec / EagerVec<BytesVec> over usize -> "
